@@ -1758,6 +1758,9 @@ func (w *transformingWriter) Write(data []byte) (n int, err error) {
 		if limit := int64(w.rw.op.methodConf.maxMsgBufferBytes); int64(len(data))+int64(w.buffer.Len()) > limit {
 			err := bufferLimitError(limit)
 			w.rw.reportError(err)
+			// What has been collected so far is part of a message that will never be
+			// complete: Close must not flush it behind the error just reported.
+			w.err = err
 			return 0, err
 		}
 		return w.buffer.Write(data)
@@ -1817,7 +1820,9 @@ func (w *transformingWriter) Write(data []byte) (n int, err error) {
 }
 
 func (w *transformingWriter) Close() error {
-	if w.expectingBytes == -1 {
+	if w.expectingBytes == -1 && w.err != nil {
+		// the body was refused part-way: nothing to flush
+	} else if w.expectingBytes == -1 {
 		if err := w.flushMessage(); err != nil {
 			w.rw.reportError(err)
 		}
